@@ -178,8 +178,9 @@ def run_script(script):
             al.time = saved
 
     try:
-        return qloop.run_q(body, seed=sched.get("seed", 0), shuffle=sched.get("shuffle", False), jitter_ms=sched.get("jitter_ms", 0),
-                           network=net)
+        with qloop.watchdog(10):
+            return qloop.run_q(body, seed=sched.get("seed", 0), shuffle=sched.get("shuffle", False), jitter_ms=sched.get("jitter_ms", 0),
+                               network=net)
     except Exception as e:  # noqa
         return {"error": f"{type(e).__name__}: {e}"}
 
@@ -546,8 +547,15 @@ def run(ctx):
     ctx.lean_obligations("GeckoModel.Properties.C15")
 
     runs = [("d2", D2_SCRIPT, run_script(D2_SCRIPT))]
+    hangs = 0
     for fam, script in scripts(ctx, 400 if ctx.quick else 6000):
-        runs.append((fam, script, run_script(script)))
+        res = run_script(script)
+        runs.append((fam, script, res))
+        if str(res.get("error", "")).startswith("Hang"):
+            hangs += 1
+            if hangs >= 2:          # the tree under test loops without suspending: two witnesses are enough
+                ctx.cov["stopped_after_hangs"] = hangs
+                break
     seen, nontrivial = set(), set()
     for fam, script, res in runs:
         ctx.count("evaluations")
